@@ -140,11 +140,56 @@ func convertSchema(schema *schema_j5pb.Field) (*Schema, error) {
 			return nil, err
 		}
 
+	case *schema_j5pb.Field_Key:
+		out.SchemaItem.Type = convertKeyItem(t.Key)
+
+	case *schema_j5pb.Field_Bytes:
+		out.SchemaItem.Type = &StringItem{
+			Format: Some("byte"),
+		}
+
+	case *schema_j5pb.Field_Date:
+		format := "date"
+		out.SchemaItem.Type = &StringItem{
+			Format:  Some(format),
+			Example: Maybe(stringExample(&format)),
+		}
+
+	case *schema_j5pb.Field_Decimal:
+		format := "number"
+		out.SchemaItem.Type = &StringItem{
+			Format:  Some(format),
+			Example: Maybe(stringExample(&format)),
+		}
+
+	case *schema_j5pb.Field_Timestamp:
+		out.SchemaItem.Type = &StringItem{
+			Format: Some("date-time"),
+		}
+
 	default:
 		return nil, fmt.Errorf("unknown schema type for swagger %T", t)
 	}
 
 	return out, nil
+}
+
+func convertKeyItem(item *schema_j5pb.KeyField) *StringItem {
+	out := &StringItem{}
+	if item.Format == nil {
+		return out
+	}
+	switch ft := item.Format.Type.(type) {
+	case *schema_j5pb.KeyFormat_Uuid:
+		format := "uuid"
+		out.Format = Some(format)
+		out.Example = Maybe(stringExample(&format))
+	case *schema_j5pb.KeyFormat_Id62:
+		out.Format = Some("id62")
+	case *schema_j5pb.KeyFormat_Custom_:
+		out.Pattern = Some(ft.Custom.Pattern)
+	}
+	return out
 }
 
 func convertStringItem(item *schema_j5pb.StringField) *StringItem {
